@@ -166,7 +166,9 @@ Print Assumptions c06_checker_on_pinned_model.
 
 (* For every history and every variant of the code: a tree id is in the store (requested or
    present), or has a description waiting for its roster, only if this server registered
-   that tree itself or asked for it earlier in the history. *)
+   that tree itself or SENT a request for it earlier in the history ([asked] does not count
+   a message whose tree request could not be sent: after a failed send the server is asking
+   nobody, and the id is not left marked as requested). *)
 Theorem c06_only_solicited : forall G gadd fx ops (s : cst G) oc,
   run gadd fx init ops = (s, oc) ->
   (forall tid, tree_state s tid <> Absent -> In tid (asked ops)) /\
@@ -205,7 +207,7 @@ Print Assumptions c06_checker_clause5_on_repaired_model.
 Theorem c06_checker_clause5_on_pinned_model :
   let s := fst (run Z.add pinned init [LRegister z_t]) in
   let '(s', outs, oc) := step Z.add pinned s (PResponseTree (Some (to_marshal z_b)) (Some z_ro)) in
-  check_step (Some (snap_of [9] s [] Fine)) (PResponseTree (Some (to_marshal z_b)) (Some z_ro)) (snap_of [9] s' outs oc) = [5].
+  check_step [] (Some (snap_of [9] s [] Fine)) (PResponseTree (Some (to_marshal z_b)) (Some z_ro)) (snap_of [9] s' outs oc) = [5].
 Proof. exact pinned_model_fails_clause5. Qed.
 Print Assumptions c06_checker_clause5_on_pinned_model.
 
